@@ -46,6 +46,9 @@ def expand_sources(prop, tier):
             if tier == 'thorough':
                 seeds = seeds * 3
             out.append(dict(kind=kind, name=name, seeds=seeds, runner=runner))
+        elif kind == 'suite':
+            if tier == 'thorough':
+                out.append(dict(kind=kind, name='repo-tests', n=1, runner='live'))
         elif kind == 'cases':
             _, name, n, n_thorough = src
             if tier == 'thorough':
@@ -96,6 +99,15 @@ def iter_cases(prop, tier, seed, shard, nshards):
                         rng = random.Random("%s:%d:%d" % (seed, i, k))
                         return runner(prop, permute_hashes(spec, rng), rng.getrandbits(30))
                     yield label, thunk
+        elif src['kind'] == 'suite':
+            gi += 1
+            if gi % nshards != shard:
+                continue
+            from .suite import run_suite_case
+
+            def thunk():
+                return run_suite_case(prop, "suite", 0, tier)
+            yield label, thunk
         else:
             from .synccases import CASES
             from . import dotcases                      # noqa: registers the C20 cases
@@ -386,6 +398,8 @@ def replay(prop, path):
         spec = body['spec']
         if 'flip' in body:
             case = run_c06(prop, spec, body.get('loop_seed'), flip=body['flip'])
+        elif body.get('perm'):
+            case = RUNNERS['perm'](prop, spec, body.get('loop_seed'))
         elif body.get('twin'):
             case = RUNNERS['twin'](prop, spec, body.get('loop_seed'))
         else:
